@@ -171,6 +171,10 @@ func DecodeFile(r io.Reader, options ...Option) (*File, error) {
 		}
 	}
 
+	// The position of the next box is what has been consumed from the input, not the sum of the (re-calculated)
+	// box sizes: a box read with a 16-byte header, or with trailing bytes, has a smaller Size() than it occupies.
+	cr := &countingReader{r: r}
+
 LoopBoxes:
 	for {
 		var box Box
@@ -179,7 +183,7 @@ LoopBoxes:
 		case DecModeLazyMdat:
 			box, err = DecodeBoxLazyMdat(boxStartPos, rs)
 		case DecModeNormal:
-			box, err = DecodeBox(boxStartPos, r)
+			box, err = DecodeBox(boxStartPos, cr)
 		default:
 			return nil, fmt.Errorf("unknown DecFileMode=%d", f.fileDecMode)
 		}
@@ -233,6 +237,14 @@ LoopBoxes:
 		f.AddChild(box, boxStartPos)
 		lastBoxType = boxType
 		boxStartPos += boxSize
+		switch f.fileDecMode {
+		case DecModeLazyMdat:
+			if pos, err := rs.Seek(0, io.SeekCurrent); err == nil {
+				boxStartPos = uint64(pos)
+			}
+		case DecModeNormal:
+			boxStartPos = cr.n
+		}
 	}
 	f.tfra = nil // Not needed anymore
 	return f, nil
@@ -441,6 +453,18 @@ func (f *File) findAndReadMfra(r io.Reader) error {
 	}
 	_, err = rs.Seek(0, io.SeekStart)
 	return err
+}
+
+// countingReader counts the bytes read through it
+type countingReader struct {
+	r io.Reader
+	n uint64
+}
+
+func (c *countingReader) Read(p []byte) (int, error) {
+	n, err := c.r.Read(p)
+	c.n += uint64(n)
+	return n, err
 }
 
 // AddSidx adds a sidx box to the File and not a MediaSegment.
